@@ -77,23 +77,66 @@ theorem reach_linv {cfg : Cfg} {kinds : List Bool} {s : St} (h : Reach cfg kinds
 
 /-! ### the request's progress -/
 
-structure GInv (s : St) : Prop where
+structure GInv0 (s : St) : Prop where
   normal : s.normal = (if s.req = .done then 1 else 0)
-  hreqs : s.hreqs = (if 5 ≤ s.req.rank then 1 else 0)
-  active : s.hActive = true → (2 ≤ s.req.rank ∧ s.req.rank ≤ 7) ∨ s.clearPending = true
-  clear : s.clearPending = true → 8 ≤ s.req.rank
-  counted : s.counted = true → 5 ≤ s.req.rank
+  hreqs : s.hreqs = (if 4 ≤ s.req.rank then 1 else 0)
+  clear : s.clearPending = true → 7 ≤ s.req.rank
+  counted : s.counted = true → 4 ≤ s.req.rank
 
-theorem ginv_step (cfg : Cfg) (s s' : St) (lb : Label) (h : step cfg s lb = some s') (hi : GInv s) : GInv s' := by
-  obtain ⟨h1, h2, h3, h4, h6⟩ := hi
+theorem ginv0_step (cfg : Cfg) (s s' : St) (lb : Label) (h : step cfg s lb = some s') (hi : GInv0 s) : GInv0 s' := by
+  obtain ⟨h1, h2, h4, h6⟩ := hi
   cases lb <;> simp only [step] at h <;> (repeat' split at h) <;> (try cases h) <;>
     (constructor <;> simp_all [Req.rank] <;> try omega)
 
-theorem reach_ginv {cfg : Cfg} {kinds : List Bool} {s : St} (h : Reach cfg kinds s) : GInv s := by
-  induction h with
-  | init =>
-    constructor <;> simp [init, Req.rank]
-  | step _ hs ih => exact ginv_step _ _ _ _ hs ih
+/-- how far the harness's two activation statements have come, against the request's progress -/
+structure StageInv (cfg : Cfg) (s : St) : Prop where
+  stage : 7 ≤ s.req.rank → s.hStage = 2
+  stage2 : s.hStage ≤ 2
+  stage3 : 2 ≤ s.req.rank → (if cfg.early = true then s.hStage = 2 else 1 ≤ s.hStage)
+  stage4 : s.hStage = 2 → 2 ≤ s.req.rank
+  stage5 : cfg.early = false → 1 ≤ s.hStage → 2 ≤ s.req.rank
+
+theorem stage_step (cfg : Cfg) (s s' : St) (lb : Label) (h : step cfg s lb = some s') (hi : StageInv cfg s) :
+    StageInv cfg s' := by
+  obtain ⟨h1, h2, h3, h4, h5⟩ := hi
+  cases lb <;> simp only [step] at h <;> (repeat' split at h) <;> (try cases h) <;>
+    (first
+      | exact ⟨h1, h2, h3, h4, h5⟩
+      | (constructor <;> simp_all [Req.rank] <;> try omega))
+
+structure ActiveInv (s : St) : Prop where
+  active : s.hActive = true → s.req.rank ≤ 6 ∨ s.clearPending = true
+
+theorem active_step (cfg : Cfg) (s s' : St) (lb : Label) (h : step cfg s lb = some s') (hs : StageInv cfg s)
+    (hi : ActiveInv s) : ActiveInv s' := by
+  obtain ⟨h3⟩ := hi
+  obtain ⟨g1, g2, g3, g4, g5⟩ := hs
+  cases lb <;> simp only [step] at h <;> (repeat' split at h) <;> (try cases h) <;>
+    (first
+      | exact ⟨h3⟩
+      | (constructor <;> simp_all [Req.rank] <;> try omega))
+
+structure GInv (cfg : Cfg) (s : St) : Prop where
+  normal : s.normal = (if s.req = .done then 1 else 0)
+  hreqs : s.hreqs = (if 4 ≤ s.req.rank then 1 else 0)
+  active : s.hActive = true → s.req.rank ≤ 6 ∨ s.clearPending = true
+  clear : s.clearPending = true → 7 ≤ s.req.rank
+  stage : 7 ≤ s.req.rank → s.hStage = 2
+  stage2 : s.hStage ≤ 2
+  stage3 : 2 ≤ s.req.rank → (if cfg.early = true then s.hStage = 2 else 1 ≤ s.hStage)
+  stage4 : s.hStage = 2 → 2 ≤ s.req.rank
+  stage5 : cfg.early = false → 1 ≤ s.hStage → 2 ≤ s.req.rank
+  counted : s.counted = true → 4 ≤ s.req.rank
+
+theorem reach_ginv {cfg : Cfg} {kinds : List Bool} {s : St} (h : Reach cfg kinds s) : GInv cfg s := by
+  have h0 : GInv0 s ∧ StageInv cfg s ∧ ActiveInv s := by
+    induction h with
+    | init =>
+      refine ⟨?_, ?_, ?_⟩ <;> constructor <;> simp [init, Req.rank]
+    | step _ hs ih =>
+      exact ⟨ginv0_step _ _ _ _ hs ih.1, stage_step _ _ _ _ hs ih.2.1, active_step _ _ _ _ hs ih.2.1 ih.2.2⟩
+  obtain ⟨⟨a1, a2, a3, a4⟩, ⟨b1, b2, b3, b4, b5⟩, ⟨c1⟩⟩ := h0
+  exact ⟨a1, a2, c1, a3, b1, b2, b3, b4, b5, a4⟩
 
 /-- before the token reaches the host nothing has started -/
 def IdleInv (s : St) : Prop := s.req = .none → ∀ l ∈ s.ls, l.phase = .idle
@@ -199,8 +242,8 @@ activity's run loop is alive (or about to be started) -/
 structure OnceInv (s : St) : Prop where
   le : nc s.tq ≤ 1
   unused : s.cancelUsed = false → nc s.tq = 0
-  alive : 1 ≤ nc s.tq → s.tRun = true ∨ (1 ≤ s.req.rank ∧ s.req.rank ≤ 2)
-  dead : s.tRun = false → s.req.rank ≤ 2 ∨ (s.cancelUsed = true ∧ nc s.tq = 0)
+  alive : 1 ≤ nc s.tq → s.tRun = true ∨ s.req = .atHarness
+  dead : s.tRun = false → s.req.rank ≤ 1 ∨ (s.cancelUsed = true ∧ nc s.tq = 0)
 
 theorem once_taskTake_cancel (s : St) (i : Nat) (rest : List TMsg) (htq : s.tq = .cancel i :: rest) (hi : OnceInv s)
     (ls' : List Listener) (v : List Bool) (tr : Bool) :
@@ -232,12 +275,12 @@ theorem once_step (cfg : Cfg) (hc : cfg.once = true) (s s' : St) (lb : Label) (h
       cases hr : s.req <;> simp [Req.rank]
       have := hidle hr l (List.mem_of_getElem? hl)
       rw [hp] at this; cases this
-    have hal : s.tRun = true ∨ (1 ≤ s.req.rank ∧ s.req.rank ≤ 2) := by
+    have hal : s.tRun = true ∨ s.req = .atHarness := by
       cases ht : s.tRun with
       | true => exact Or.inl rfl
       | false =>
         rcases h4 ht with h | h
-        · exact Or.inr ⟨hreq, h⟩
+        · right; cases hr : s.req <;> simp [hr, Req.rank] at h hreq ⊢
         · rw [hcu] at h; cases h.1
     constructor
     · simp only [nc, List.countP_append] at hn0 ⊢; simp [TMsg.isCancel, hn0]
@@ -246,10 +289,10 @@ theorem once_step (cfg : Cfg) (hc : cfg.once = true) (s s' : St) (lb : Label) (h
     · intro ht
       rcases hal with h | h
       · rw [ht] at h; cases h
-      · exact Or.inl h.2
+      · left; simp [h, Req.rank]
   all_goals exact once_taskTake_cancel s _ _ (by assumption) ⟨h1, h2, h3, h4⟩ _ _ _
 
-theorem quiet_listener (s : St) (hq : quiet s = true) (i : Nat) (l : Listener) (hl : s.ls[i]? = some l) :
+theorem quiet_listener (cfg : Cfg) (s : St) (hq : quiet cfg s = true) (i : Nat) (l : Listener) (hl : s.ls[i]? = some l) :
     l.inbox = 0 ∧ l.phase ≠ .starting ∧ l.phase ≠ .fired ∧ l.phase ≠ .ready := by
   unfold quiet at hq
   simp only [Bool.and_eq_true, List.all_eq_true] at hq
@@ -258,32 +301,35 @@ theorem quiet_listener (s : St) (hq : quiet s = true) (i : Nat) (l : Listener) (
   simp only [Bool.and_eq_true, beq_iff_eq] at this
   refine ⟨this.1, ?_, ?_, ?_⟩ <;> (intro hp; rw [hp] at this; simp at this)
 
-theorem quiet_no_internal (cfg : Cfg) (s : St) (hq : quiet s = true) (l : Label) (hint : l.internal = true) :
+theorem quiet_no_internal (cfg : Cfg) (s : St) (hq : quiet cfg s = true) (l : Label) (hint : l.internal = true) :
     step cfg s l = none := by
   have hq' := hq
   unfold quiet at hq'
-  simp only [Bool.and_eq_true, Bool.not_eq_true', Bool.and_eq_false_iff, Bool.not_eq_false'] at hq'
-  obtain ⟨⟨⟨⟨h1, h2⟩, h3⟩, h4⟩, _⟩ := hq'
+  simp only [Bool.and_eq_true, Bool.not_eq_true', Bool.and_eq_false_iff, Bool.not_eq_false',
+    Bool.or_eq_false_iff] at hq'
+  obtain ⟨⟨⟨⟨⟨⟨⟨h1, h2⟩, h3⟩, h4⟩, h5⟩, h6⟩, h7⟩, _⟩ := hq'
   cases l <;> simp [Label.internal] at hint <;> simp only [step]
-  case harnessActive => cases hr : s.req <;> simp_all
-  case harnessCall => cases hr : s.req <;> simp_all
+  case harnessActive =>
+    cases hr : s.req <;> cases he : cfg.early <;> rcases hst : s.hStage with _ | _ | _ | n <;> simp_all
+  case harnessCall =>
+    cases hr : s.req <;> cases he : cfg.early <;> rcases hst : s.hStage with _ | _ | _ | n <;> simp_all
   case reqStart => cases hr : s.req <;> simp_all
   case respond => cases hr : s.req <;> simp_all
-  case forward => cases hr : s.req <;> simp_all
+  case forward => cases hr : s.req <;> rcases hst : s.hStage with _ | _ | _ | n <;> simp_all
   case hostTake => cases hr : s.req <;> simp_all
   case decrement => cases hr : s.req <;> cases hc : s.counted <;> simp_all
-  case clear => simp [h4]
+  case clear => simp [h7]
   case taskTake => cases ht : s.tRun <;> cases htq : s.tq <;> simp_all
   all_goals
     rename_i i
     cases hl : s.ls[i]? with
     | none => rfl
     | some l =>
-      obtain ⟨q1, q2, q3, q4⟩ := quiet_listener s hq i l hl
+      obtain ⟨q1, q2, q3, q4⟩ := quiet_listener cfg s hq i l hl
       cases hp : l.phase <;> simp_all
 
 theorem internal_none_quiet (cfg : Cfg) (s : St) (h : ∀ l : Label, l.internal = true → step cfg s l = none) :
-    quiet s = true := by
+    quiet cfg s = true := by
   have a1 := h .harnessActive rfl
   have a0 := h .harnessCall rfl
   have a2 := h .taskTake rfl
@@ -296,8 +342,11 @@ theorem internal_none_quiet (cfg : Cfg) (s : St) (h : ∀ l : Label, l.internal 
   simp only [step] at a0 a1 a2 a3 a4 a5 a6 a7 a8
   unfold quiet
   simp only [Bool.and_eq_true, List.all_eq_true]
-  refine ⟨⟨⟨⟨?_, ?_⟩, ?_⟩, ?_⟩, ?_⟩
+  refine ⟨⟨⟨⟨⟨⟨⟨?_, ?_⟩, ?_⟩, ?_⟩, ?_⟩, ?_⟩, ?_⟩, ?_⟩
   · cases hr : s.req <;> simp_all
+  · cases hr : s.req <;> cases he : cfg.early <;> rcases hst : s.hStage with _ | _ | _ | n <;> simp_all
+  · cases he : cfg.early <;> rcases hst : s.hStage with _ | _ | _ | n <;> simp_all
+  · cases hr : s.req <;> rcases hst : s.hStage with _ | _ | _ | n <;> simp_all
   · cases ht : s.tRun <;> cases htq : s.tq <;> simp_all
     rename_i hd tl
     cases hd <;> simp_all
@@ -356,7 +405,7 @@ theorem reach_once {cfg : Cfg} (hc : cfg.once = true) {kinds : List Bool} {s : S
   | step hr hs ih => exact once_step cfg hc _ _ _ hs (reach_idle hr) ih
 
 /-- `quiet` says exactly that no internal label is enabled -/
-theorem quiet_iff (cfg : Cfg) (s : St) : quiet s = true ↔ ∀ l : Label, l.internal = true → step cfg s l = none :=
+theorem quiet_iff (cfg : Cfg) (s : St) : quiet cfg s = true ↔ ∀ l : Label, l.internal = true → step cfg s l = none :=
   ⟨fun hq l hl => quiet_no_internal cfg s hq l hl, internal_none_quiet cfg s⟩
 
 theorem run_listener_mono (cfg : Cfg) (tr : List Label) (s s' : St) (h : run cfg s tr = some s') (i : Nat) (a : Listener)
@@ -376,7 +425,7 @@ theorem run_listener_mono (cfg : Cfg) (tr : List Label) (s s' : St) (h : run cfg
 
 /-- the activity's run loop exits only by accepting a cancel; its first message sits in its inbox until handled -/
 structure RunInv (s : St) : Prop where
-  exited : s.tRun = false → s.req.rank ≤ 2 ∨ true ∈ s.verdicts
+  exited : s.tRun = false → s.req.rank ≤ 1 ∨ true ∈ s.verdicts
   queued : s.req = .atTask → TMsg.next ∈ s.tq
 
 theorem runinv_step (cfg : Cfg) (s s' : St) (lb : Label) (h : step cfg s lb = some s') (hi : RunInv s) : RunInv s' := by
@@ -408,5 +457,80 @@ theorem stranded_forever (cfg : Cfg) (tr : List Label) (s s' : St) (h : run cfg 
       obtain ⟨a, b, c, d⟩ := stranded_step cfg s s1 l hs h1 h2
       obtain ⟨e, f, g⟩ := ih s1 h a b
       exact ⟨e, f.trans c, g.trans d⟩
+
+/-- consequences of quiescence used by the property proofs -/
+theorem quiet_req (cfg : Cfg) (s : St) (hq : quiet cfg s = true) :
+    s.req ≠ .spawned ∧ s.req ≠ .answered ∧ s.req ≠ .forwarded := by
+  have a := quiet_no_internal cfg s hq .reqStart rfl
+  have b := quiet_no_internal cfg s hq .respond rfl
+  have c := quiet_no_internal cfg s hq .hostTake rfl
+  simp only [step] at a b c
+  refine ⟨?_, ?_, ?_⟩ <;> (intro h; simp [h] at a b c)
+
+theorem quiet_tq (cfg : Cfg) (s : St) (hq : quiet cfg s = true) : s.tRun = false ∨ s.tq = [] := by
+  have a := quiet_no_internal cfg s hq .taskTake rfl
+  simp only [step] at a
+  cases ht : s.tRun with
+  | false => exact Or.inl rfl
+  | true =>
+    right
+    cases htq : s.tq with
+    | nil => rfl
+    | cons hd tl => cases hd <;> simp [ht, htq] at a
+
+theorem quiet_clear (cfg : Cfg) (s : St) (hq : quiet cfg s = true) : s.clearPending = false := by
+  have a := quiet_no_internal cfg s hq .clear rfl
+  simp only [step] at a
+  cases h : s.clearPending <;> simp_all
+
+/-- with `active := 1` stored AFTER `activity.NextAction` and events gated by `active`: nothing reaches a boundary
+event before the activity has its first message, so that message is the first in the activity's inbox -/
+structure LateInv (s : St) : Prop where
+  inactive : s.hStage ≤ 1 → s.hActive = false
+  calm : s.hStage ≤ 1 → ∀ l ∈ s.ls, l.inbox = 0 ∧ l.phase.rank ≤ 2
+  empty : s.hStage = 0 → s.tq = [] ∧ s.req.rank ≤ 1
+  started : s.req.rank ≤ 1 → s.hStage = 0
+  first : s.req = .atTask → s.tRun = true ∧ ∃ rest, s.tq = .next :: rest
+
+theorem late_step (cfg : Cfg) (he : cfg.early = false) (hg : cfg.gated = true) (s s' : St) (lb : Label)
+    (h : step cfg s lb = some s') (hi : LateInv s) : LateInv s' := by
+  obtain ⟨h1, h2, h3, h4, h5⟩ := hi
+  cases lb <;> simp only [step] at h <;> (repeat' split at h) <;> (try cases h) <;>
+    (try (constructor <;> simp_all [Req.rank] <;> (try omega); done))
+  · -- activate
+    constructor <;> simp_all [Req.rank]
+    intro l hl
+    have := h2 l hl
+    unfold startListener
+    split <;> simp_all [LPhase.rank]
+  all_goals
+    have hmem := List.mem_of_getElem? (by assumption : s.ls[_]? = some _)
+    constructor
+    · exact h1
+    · intro hs l hl
+      have hc := h2 hs _ hmem
+      rcases List.mem_or_eq_of_mem_set hl with hm | rfl
+      · exact h2 hs l hm
+      · simp_all [LPhase.rank]
+    · intro hs
+      have hc := h2 (by simp only at hs; omega) _ hmem
+      have := h3 hs
+      simp_all [LPhase.rank]
+    · exact h4
+    · intro hr
+      obtain ⟨ht, rest, hq⟩ := h5 hr
+      first
+      | exact ⟨ht, rest, hq⟩
+      | exact ⟨ht, rest ++ [_], by simp [hq]⟩
+      | (simp_all; done)
+
+theorem reach_late {cfg : Cfg} (he : cfg.early = false) (hg : cfg.gated = true) {kinds : List Bool} {s : St}
+    (h : Reach cfg kinds s) : LateInv s := by
+  induction h with
+  | init =>
+    constructor <;> simp [init, Req.rank]
+    intro a h
+    rcases h with ⟨_, rfl⟩ | ⟨_, rfl⟩ <;> simp [LPhase.rank]
+  | step _ hs ih => exact late_step cfg he hg _ _ _ hs ih
 
 end Bpmn.Model.Boundary
